@@ -185,7 +185,7 @@ class Monitor(cmd.Cmd):
         self.byteMask = self._mpu.byteMask
         if getc_addr and putc_addr:
             self._install_mpu_observers(getc_addr, putc_addr)
-        self._address_parser = AddressParser()
+        self._address_parser = AddressParser(maxwidth=self.addrWidth)
         self._disassembler = Disassembler(self._mpu, self._address_parser)
         self._assembler = Assembler(self._mpu, self._address_parser)
 
